@@ -6,11 +6,12 @@ import vlib, families
 
 fam, seed, n = sys.argv[1], int(sys.argv[2]), int(sys.argv[3])
 dev = set(sys.argv[4].split(",")) if len(sys.argv) > 4 and sys.argv[4] else set()
-binary = vlib.build_harness()
+profile = os.environ.get("VERIF_PROFILE", "debug")
+binary = vlib.build_harness(release=(profile == "release"))
 scs = [families.FAMILIES[fam](seed, i) for i in range(n)]
 wd = os.path.join(vlib.WORK, f"explore-{fam}-{seed}")
 traces = vlib.run_harness(binary, scs, wd, "x")
-res = vlib.validate(traces, dev, wd, shard=25, jobs=12)
+res = vlib.validate(traces, dev, wd, shard=25, jobs=12, profile=profile)
 bad = [(sc, t, r) for sc, t, r in zip(scs, traces, res) if not r["ok"]]
 print(f"{len(scs)} scenarios, {sum(len(t['lines']) for t in traces)} events, {len(bad)} rejected")
 agg = collections.Counter()
